@@ -2,129 +2,84 @@
 
 Monitors: hooks (call/return/raise counters) on the age/depth/lineage functions of Tree and on every statistic of
 dendropy.calculate.treemeasure; every call's outcome (value or exception class) is compared with an oracle written
-from the definitions on the spec of the same tree:
-  ages            exactly ultrametric (dyadic) trees: age(node) == distance to its descendant tips, exactly
-  depths          resolve_node_depths / calc_node_root_distances == distance from the root
+from the definitions on the spec of the same tree (oracles: _c17_util.py):
+  ages            exactly ultrametric (dyadic) trees: age(node) == distance to its descendant tips, exactly; routes calc_node_ages,
+                  node_ages, internal_node_ages, resolve_node_ages (attribute name / edge-length function options),
+                  treemeasure.node_ages / coalescence_ages; the returned collections are judged as well as the attributes
+  depths          resolve_node_depths (options), calc_node_root_distances (flag True/False/default; list and every node's
+                  root_distance), treemeasure.node_depths / divergence_times == distance from the root
   restore         set_edge_lengths_from_node_ages restores the original lengths
-  lineages        num_lineages_at(d) == #{edges (p,c): depth(p) < d <= depth(c)}   (positive edge lengths)
-  accept/reject   one tip or subtree pushed off by delta: delta = eps*(1-1e-3) accepted, eps*(1+1e-3) rejected with
-                  UltrametricityError, for eps in {default 1e-5, 1e-2, 1e-9}; eps = 0 rejects any delta > 0;
-                  check disabled (None / False / negative) never rejects; accepted trees: every age within the range
-                  of the node's tip distances
-  forcing         is_force_max_age / is_force_min_age: age == max / min over children of (child age + length), no rejection
-  statistics      length, max/minmax root distance, N-bar, Sackin (None/True/yule/pda), Colless (None/max/yule/pda),
-                  B1, treeness, Pybus-Harvey gamma == published formulas; unchanged by child shuffling; Tree.* wrappers agree
-Soundness limits: accept/reject judged for a single perturbation only; gamma on binary ultrametric trees with >= 3 leaves;
-Colless on binary trees (others must raise the documented TypeError); lineage counts only with positive lengths."""
-import math
+  lineages        num_lineages_at(d) == #{edges (p,c): depth(p) < d <= depth(c)}   (positive edge lengths), also after scale_edges
+  accept/reject   a HISTORY on one tree object: at every step some edge lengths are set to (ultrametric length + deviation) - no
+                  deviation, one deviation just below/above the precision, several deviations most of them each within the
+                  precision, several large deviations - and one route (calc_node_ages / node_ages / internal_node_ages with their
+                  internal-only options, both Pybus-Harvey gamma routes) is called with one precision (default, 1e-5, 1e-2, 1e-9,
+                  0, 0.0, 1, 0.25), with the check disabled (None / False / negative) or with a forcing option.
+                  Oracle: spread = longest - shortest root-to-tip path; spread > precision => UltrametricityError,
+                  spread <= precision => accepted and every age within the range of the node's tip distances (equal to it when
+                  there is no deviation); disabled => never rejected; forcing => age == max / min over children of
+                  (child age + length), never rejected.  A verdict within the floating-point rounding bound of the precision is
+                  not judged (counted as a note).
+  statistics      length, max/minmax root distance, N-bar, Sackin (None/False/True/yule/pda/default), Colless (None/False/max/True/
+                  yule/pda/default), B1, treeness, Pybus-Harvey gamma == published formulas; unchanged by child shuffling; Tree.*
+                  wrappers agree; normalisation passed by keyword, positionally and left to its default; trees with a length
+                  on the root's own edge, with missing / zero lengths and with outdegree-one nodes; gamma also on an object
+                  whose ages were computed before and whose node heights were then changed (must describe the tree as it is now,
+                  must raise once the tree is not ultrametric any more)
+Soundness limits: gamma on binary ultrametric trees with >= 3 leaves; Colless on binary trees (polytomies must raise the
+documented TypeError; what happens on outdegree-one nodes is only noted); lineage counts only with positive lengths; treeness /
+root distances only when every non-root length is present; a length on the root's own edge is no branch of the tree for treeness
+and the distances (library documentation), Tree.length may or may not include it; Node.distance_from_root / distance_from_tip /
+level, Tree.coalescence_intervals are driven but only noted (routes the statement does not name)."""
 import random
 
 from .. import ref, gen, bridge, core
 from ..mon.hooks import Hooks
+from . import _c17_util as U
+from ._c17_util import close
 
 PROP = "C17"
-LEVEL_TEXT = 'Ages/depths/lineage counts/statistics returned by the hooked functions are compared with formula oracles on generated ultrametric trees (dyadic heights: exact arithmetic); the ultrametricity check is probed with a single perturbation on both sides of each precision; forcing options against max/min recursion.'
-LEVEL_NOTE = 'Trusted: the formulas transcribed from the cited papers; single-perturbation reading of the per-node criterion.'
+LEVEL_TEXT = ('Ages/depths/lineage counts/statistics returned by the hooked functions (every public route and option of the age, depth and '
+              'statistic functions) are compared with formula oracles on generated ultrametric trees (dyadic heights: exact arithmetic), '
+              'with root-edge lengths, outdegree-one nodes, missing/zero lengths; the ultrametricity check is probed through histories on one '
+              'tree object with one or several deviations on both sides of each precision against the spread of the root-to-tip paths; '
+              'forcing options against max/min recursion; gamma and ages re-queried after the tree was modified.')
+LEVEL_NOTE = ('Trusted: the formulas transcribed from the cited papers; "paths differ by more than the precision" read as longest minus '
+              'shortest root-to-tip path; verdicts closer to the precision than the floating-point rounding bound are not judged.')
 LEVEL = "exploration"
-TECHNIQUE = "runtime monitoring: hooked age/statistic functions compared with formula oracles on generated ultrametric and perturbed trees"
-RULE = ("tree (all binary+polytomous shapes n<=5 via random generation, random up to 200 leaves, dyadic or float ultrametric heights) x "
-        "precision x forcing option x single perturbation on either side of the precision x normalisation option; non-trivial = >= 3 leaves; "
-        "distinct = (canonical tree with lengths, option set)")
+TECHNIQUE = "runtime monitoring: hooked age/statistic functions compared with formula oracles on generated ultrametric and perturbed trees, object histories"
+RULE = ("tree (all binary+polytomous shapes n<=5 via random generation, random up to 200 leaves, single-leaf trees, outdegree-one nodes, "
+        "dyadic or float ultrametric heights, root-edge length, missing/zero lengths for the length-free statistics, rooting flag True/None/False) x "
+        "history of (deviation set: none / one / several small / several large) x precision x check disabled x forcing option x route x "
+        "normalisation option (keyword / positional / default); non-trivial = >= 3 leaves; distinct = (canonical tree with lengths, option history)")
 REACH = ["_tree:Tree.calc_node_ages", "_tree:Tree.node_ages", "_tree:Tree.internal_node_ages", "_tree:Tree.resolve_node_ages",
          "_tree:Tree.resolve_node_depths", "_tree:Tree.calc_node_root_distances", "_tree:Tree.set_edge_lengths_from_node_ages",
          "_tree:Tree.num_lineages_at", "_tree:Tree.length", "_tree:Tree.max_distance_from_root", "_tree:Tree.minmax_leaf_distance_from_root",
+         "_tree:Tree.pybus_harvey_gamma", "_tree:Tree.sackin_index", "_tree:Tree.colless_tree_imbalance",
          "treemeasure:B1", "treemeasure:colless_tree_imbalance", "treemeasure:pybus_harvey_gamma", "treemeasure:N_bar",
-         "treemeasure:sackin_index", "treemeasure:treeness"]
-MIN_EVENTS = {"ages-compared": (500, 15000), "threshold-accept-judged": (500, 8000), "threshold-reject-judged": (500, 5000),
-              "statistic-compared": (5000, 150000), "lineages-compared": (2000, 60000), "forcing-compared": (300, 8000),
-              "tree-with-root-edge-length": (500, 2000)}
+         "treemeasure:sackin_index", "treemeasure:treeness", "treemeasure:node_ages", "treemeasure:node_depths",
+         "treemeasure:coalescence_ages", "treemeasure:divergence_times"]
+MIN_EVENTS = {"ages-compared": (15000, 110000), "threshold-accept-judged": (11000, 65000), "threshold-reject-judged": (6000, 36000),
+              "statistic-compared": (140000, 850000), "lineages-compared": (50000, 420000), "forcing-compared": (3500, 20000),
+              "tree-with-root-edge-length": (900, 6000),
+              # added with the audit: object histories, several deviations, routes x options, returned collections
+              "threshold-reused-object-judged": (13000, 75000), "threshold-reused-object-reject-judged": (4500, 27000),
+              "several-deviations-accept-judged": (1200, 7000), "several-deviations-reject-judged": (2500, 15000),
+              "accepted-ages-judged": (7000, 40000), "returned-ages-judged": (10000, 60000),
+              "check-disabled-judged": (3500, 20000), "check-disabled-on-gross-deviations-judged": (1100, 7000),
+              "gamma-threshold-judged": (1700, 10000), "gamma-reused-object-compared": (1100, 6500),
+              "gamma-after-change-compared": (1100, 6500), "gamma-non-ultrametric-judged": (2200, 13000),
+              "root-distances-judged": (2500, 17000), "root-distances-flag:all-nodes": (1200, 8000), "root-distances-flag:leaves": (1200, 8000),
+              "depth-option:attr": (600, 4000), "depth-option:noattr": (600, 4000), "depth-option:unit": (600, 4000),
+              "module-route-compared": (8000, 50000), "lineages-after-change-compared": (17000, 120000),
+              "ages-after-change-compared": (2500, 17000), "tree-with-unary-node": (900, 6000),
+              "statistic-compared|default-normalisation": (14000, 80000), "statistic-compared|positional-normalisation": (15000, 85000),
+              "statistic-compared|root-edge-has-length": (3800, 24000), "statistic-compared|missing-lengths": (500, 3400),
+              "stats-tree-with-missing-or-zero-lengths": (280, 1800), "stats-tree-with-root-edge-length": (700, 4400)}
 ASSUMPTIONS = ["formulas: Sackin/Colless normalisations after Blum & Francois 2006 / Kirkpatrick & Slatkin 1993, B1 after Shao & Sokal 1990, gamma after Pybus & Harvey 2000",
-               "dyadic heights make reference arithmetic exact; float cases use 1e-9 relative tolerance"]
-EULER = 0.5772156649015328606
-
-
-def close(a, b, tol=1e-9):
-    if a == b:
-        return True
-    return abs(a - b) <= tol * max(1.0, abs(a), abs(b))
-
-
-# ---- oracles -------------------------------------------------------------------------------------
-def tip_distances(s):
-    """id(node) -> sorted list of distances to its descendant tips."""
-    memo = {}
-    for n in ref.postorder(s):
-        if not n[3]:
-            memo[id(n)] = [0.0]
-        else:
-            memo[id(n)] = sorted(d + c[2] for c in n[3] for d in memo[id(c)])
-    return memo
-
-
-def forced_ages(s, fn):
-    memo = {}
-    for n in ref.postorder(s):
-        memo[id(n)] = 0.0 if not n[3] else fn(memo[id(c)] + c[2] for c in n[3])
-    return memo
-
-
-def stat_oracles(s):
-    rd = ref.root_distances(s)
-    leaves = [(n, d, k) for n, d, k in rd if not n[3]]
-    nl = len(leaves)
-    S = sum(k for n, d, k in leaves)
-    out = {"N_bar": S / float(nl), "sackin:None": float(S), "sackin:True": S / float(nl),
-           "sackin:yule": (S - 2.0 * nl * sum(1.0 / j for j in range(2, nl + 1))) / nl,
-           "sackin:pda": S / (nl ** 1.5)}
-    # B1
-    h = {}
-    b1 = 0.0
-    for n in ref.postorder(s):
-        if not n[3]:
-            h[id(n)] = 0
-        else:
-            h[id(n)] = 1 + max(h[id(c)] for c in n[3])
-            if n is not s:
-                b1 += 1.0 / h[id(n)]
-    out["B1"] = b1
-    # Colless
-    binary = all(len(n[3]) in (0, 2) for n in ref.preorder(s))
-    if binary and nl >= 2:
-        cnt = {}
-        I = 0
-        for n in ref.postorder(s):
-            if not n[3]:
-                cnt[id(n)] = 1
-            else:
-                a, b = cnt[id(n[3][0])], cnt[id(n[3][1])]
-                I += abs(a - b)
-                cnt[id(n)] = a + b
-        out["colless:None"] = float(I)
-        if nl >= 3:
-            out["colless:max"] = I * 2.0 / ((nl - 1) * (nl - 2))
-        out["colless:yule"] = (I - nl * math.log(nl) - nl * (EULER - 1.0 - math.log(2))) / nl
-        out["colless:pda"] = I / (nl ** 1.5)
-    tot = sum(n[2] for n in ref.preorder(s) if n is not s)
-    if tot:
-        out["treeness"] = sum(n[2] for n in ref.preorder(s) if n is not s and n[3]) / tot
-    out["length"] = tot
-    out["maxdist"] = max(d for n, d, k in rd)
-    out["minmax"] = (min(d for n, d, k in leaves), max(d for n, d, k in leaves))
-    return out, binary, nl
-
-
-def gamma_oracle(s, ages):
-    """Pybus & Harvey (2000) eq. 1 from the internal node ages of a binary ultrametric tree with n tips."""
-    n = len(ref.leaves(s))
-    t = sorted((ages[id(x)] for x in ref.preorder(s) if x[3]), reverse=True)   # root first
-    g = {}
-    for k in range(2, n + 1):          # g_k: time during which there are k lineages
-        older = t[k - 2]
-        younger = t[k - 1] if k - 1 < len(t) else 0.0
-        g[k] = older - younger
-    T = sum(j * g[j] for j in range(2, n + 1))
-    inner = sum(sum(k * g[k] for k in range(2, i + 1)) for i in range(2, n))
-    return (inner / (n - 2.0) - T / 2.0) / (T * math.sqrt(1.0 / (12.0 * (n - 2))))
+               "dyadic heights make reference arithmetic exact; float cases use 1e-9 relative tolerance",
+               "'paths differ by more than the precision' = longest minus shortest root-to-tip path exceeds it (the per-node reading of the docstring gives the same verdicts)",
+               "a length on the root's own edge lies on no root-to-node path and is no branch for treeness (library documentation); Tree.length may include it"]
 
 
 # ---- workload ------------------------------------------------------------------------------------
@@ -140,15 +95,20 @@ def cases(tier, seed):
 def fresh(spec, rooted=True):
     import dendropy
     ns = dendropy.TaxonNamespace(sorted(ref.leaf_taxa(spec)))
-    t, nodes = None, None
-    t = bridge.build_tree(spec, ns, rooted)
-    return t
+    return bridge.build_tree(spec, ns, rooted)
+
+
+def live_nodes(tree, spec):
+    """live nodes in the pre-order of spec (the tree was built from spec: same pre-order)."""
+    s2, pairs = bridge.extract(tree, with_nodes=True)
+    nodes = [nd for b, nd in pairs]
+    if len(nodes) != ref.n_nodes(spec):
+        raise core.HarnessBug("live tree and spec differ in size")
+    return nodes
 
 
 def live_map(tree, spec):
-    s2, pairs = bridge.extract(tree, with_nodes=True)
-    # tree was built from spec: same pre-order
-    return dict((id(a), nd) for a, (b, nd) in zip(ref.preorder(spec), pairs))
+    return dict((id(a), nd) for a, nd in zip(ref.preorder(spec), live_nodes(tree, spec)))
 
 
 def install_counters(ctx, hooks):
@@ -174,51 +134,63 @@ def run_case(case, ctx):
             run_stats(ctx, case, rng)
 
 
-def gen_tree(ctx, rng, dyadic=True, binary=None):
-    quick = ctx.tier == "quick"
-    n = rng.choice([2, 3, 4, 5, 6, 9, 14, 20]) if quick else rng.choice([2, 3, 4, 5, 6, 10, 25, 60, 200])
-    if binary is None:
-        binary = rng.random() < 0.6
-    spec = gen.random_spec(rng, n, p_poly=0.0 if binary else 0.4, shape=rng.choice([None, None, None, "caterpillar", "balanced"]))
-    gen.ultrametric_lengths(spec, rng, dyadic=dyadic)
-    return spec
+def pick_rooting(rng):
+    return rng.choice([True, True, True, None, False])
 
 
+def same_sorted(got, want, exact):
+    got = sorted(got)
+    if len(got) != len(want):
+        return False
+    if exact:
+        return all(a == b for a, b in zip(got, want))
+    return all(close(a, b) for a, b in zip(got, want))
+
+
+# ---- ages, depths, lineages on ultrametric trees -----------------------------------------------------
 def run_ultrametric(ctx, case, rng):
-    from dendropy.utility import error
+    from dendropy.calculate import treemeasure
     dyadic = rng.random() < 0.7
-    spec = gen_tree(ctx, rng, dyadic)
+    spec = U.gen_tree(ctx.tier, rng, dyadic, allow_single=True)
+    spec, unary = U.maybe_unary(spec, rng)
+    if unary:
+        ctx.ev("tree-with-unary-node")
     # a length on the root's own edge (as the simulators and '(...):0.75;' sources leave it) belongs to no root-to-node
     # path: ages, depths, root distances and lineage counts must not see it (seeded change C17c)
     if rng.random() < 0.35:
         spec[2] = rng.choice([0, 0.75, 2, 1.0, 3.5])
         ctx.ev("tree-with-root-edge-length")
-    det = {"tree": ref.to_newick(spec), "dyadic": dyadic}
-    tree = fresh(spec)
+    rooted = pick_rooting(rng)
+    det = {"tree": ref.to_newick(spec), "dyadic": dyadic, "rooted": rooted}
+    pre = list(ref.preorder(spec))
+    tree = fresh(spec, rooted)
     lm = live_map(tree, spec)
-    td = tip_distances(spec)
-    tol = 0 if dyadic else 1e-9
+    tr = U.tip_range(spec)
+    exact = dyadic
+
+    def eq(got, want):
+        return got == want or (not exact and got is not None and close(got, want))
     ok, res = core.call(ctx, "calc_node_ages", tree.calc_node_ages, detail=det)
     if ok:
         ctx.ev("ages-compared")
-        for n in ref.preorder(spec):
-            want = td[id(n)][0]
+        for n in pre:
+            want = tr[id(n)][0]
             got = lm[id(n)].age
-            if not (got == want or (tol and close(got, want))):
+            if not eq(got, want):
                 ctx.violation("calc_node_ages|age-differs-from-tip-distance", "age %r, distance to tips %r" % (got, want), det)
                 break
-        allages = sorted(td[id(n)][0] for n in ref.preorder(spec))
-        if len(res) != len(allages) or any(not close(a, b) for a, b in zip(sorted(res), allages)):
+        allages = sorted(tr[id(n)][0] for n in pre)
+        if not same_sorted(res, allages, exact):
             ctx.violation("calc_node_ages|returned-ages-wrong", "returned %s" % sorted(res)[:10], det)
         for fnname, internal in (("node_ages", False), ("internal_node_ages", True)):
-            t2 = fresh(spec)
+            t2 = fresh(spec, rooted)
             ok2, r2 = core.call(ctx, fnname, getattr(t2, fnname), detail=det)
-            want = sorted(td[id(n)][0] for n in ref.preorder(spec) if (n[3] or not internal))
-            ctx.ev("ages-compared")
-            if ok2 and (list(r2) != sorted(r2) or len(r2) != len(want) or any(not close(a, b) for a, b in zip(r2, want))):
-                ctx.violation("%s|wrong" % fnname, "got %s want %s" % (list(r2)[:8], want[:8]), det)
+            want = sorted(tr[id(n)][0] for n in pre if (n[3] or not internal))
+            if ok2:
+                ctx.ev("ages-compared")
+                if list(r2) != sorted(r2) or not same_sorted(r2, want, exact):
+                    ctx.violation("%s|wrong" % fnname, "got %s want %s" % (list(r2)[:8], want[:8]), det)
         # restore lengths from ages
-        orig = [n[2] for n in ref.preorder(spec)]
         for nd in tree.preorder_node_iter():
             if nd._parent_node is not None:
                 nd.edge.length = 123.0
@@ -226,216 +198,515 @@ def run_ultrametric(ctx, case, rng):
         if ok3:
             ctx.ev("ages-compared")
             s2 = bridge.extract(tree)
-            for a, b in zip(ref.preorder(spec), ref.preorder(s2)):
+            for a, b in zip(pre, ref.preorder(s2)):
                 if a is spec:
                     continue
-                if not (a[2] == b[2] or (tol and close(a[2], b[2]))):
+                if not eq(b[2], a[2]):
                     ctx.violation("set_edge_lengths_from_node_ages|lengths-not-restored", "%r -> %r" % (a[2], b[2]), det)
                     break
-    # resolve_node_ages / depths (no ultrametricity requirement)
-    tree = fresh(spec)
+    # ---- depths / ages without ultrametricity requirement, every option of the routes
+    tree = fresh(spec, rooted)
     lm = live_map(tree, spec)
-    rd = dict((id(n), d) for n, d, k in ref.root_distances(spec))
-    ok, cache = core.call(ctx, "resolve_node_depths", tree.resolve_node_depths, detail=det)
+    rdl = ref.root_distances(spec)
+    rd = dict((id(n), d) for n, d, k in rdl)
+    lvl = dict((id(n), k) for n, d, k in rdl)
+    variant = rng.choice(["default", "attr", "noattr", "unit"])
+    kw = {"default": {}, "attr": {"attr_name": "c17_depth"}, "noattr": {"attr_name": None},
+          "unit": {"node_edge_length_fn": lambda nd: 1}}[variant]
+    ok, cache = core.call(ctx, "resolve_node_depths", tree.resolve_node_depths, detail=det, **kw)
     if ok:
         ctx.ev("ages-compared")
-        for n in ref.preorder(spec):
-            if not close(lm[id(n)].depth, rd[id(n)]) or not close(cache[lm[id(n)]], rd[id(n)]):
-                ctx.violation("resolve_node_depths|depth-differs-from-root-distance", "%r vs %r" % (lm[id(n)].depth, rd[id(n)]), det)
+        ctx.ev("depth-option:%s" % variant)
+        wantd = lvl if variant == "unit" else rd
+        attr = {"default": "depth", "attr": "c17_depth", "noattr": None, "unit": "depth"}[variant]
+        for n in pre:
+            nd = lm[id(n)]
+            bad = nd not in cache or not close(cache[nd], wantd[id(n)])
+            if not bad and attr is not None:
+                v = getattr(nd, attr, None)
+                bad = v is None or not close(v, wantd[id(n)])
+            if bad:
+                ctx.violation("resolve_node_depths|depth-differs-from-root-distance%s" % ("" if variant == "default" else "|option-" + variant),
+                              "node at root distance %r: returned %r, attribute %r" % (wantd[id(n)], cache.get(nd), getattr(nd, attr, None) if attr else None), det)
                 break
-    ok, cache = core.call(ctx, "resolve_node_ages", tree.resolve_node_ages, detail=det)
+    variant = rng.choice(["default", "default", "attr", "noattr"])
+    kw = {"default": {}, "attr": {"attr_name": "c17_age"}, "noattr": {"attr_name": None}}[variant]
+    ok, cache = core.call(ctx, "resolve_node_ages", tree.resolve_node_ages, detail=det, **kw)
     if ok:
         ctx.ev("ages-compared")
-        for n in ref.preorder(spec):
-            if not close(lm[id(n)].age, td[id(n)][-1]) and not close(lm[id(n)].age, td[id(n)][0]):
-                ctx.violation("resolve_node_ages|age-wrong", "%r vs %r" % (lm[id(n)].age, td[id(n)]), det)
+        attr = {"default": "age", "attr": "c17_age", "noattr": None}[variant]
+        for n in pre:
+            nd = lm[id(n)]
+            lo, hi = tr[id(n)]
+            vals = [cache.get(nd)] + ([getattr(nd, attr, None)] if attr else [])
+            if any(v is None or not (close(v, lo) or close(v, hi)) for v in vals):
+                ctx.violation("resolve_node_ages|age-wrong%s" % ("" if variant == "default" else "|option-" + variant), "%r vs %r" % (vals, (lo, hi)), det)
                 break
-    ok, dists = core.call(ctx, "calc_node_root_distances", tree.calc_node_root_distances, detail=det)
+    flag = rng.choice(["default", "True", "False", "positional-False"])
+    args, kw = {"default": ((), {}), "True": ((), {"return_leaf_distances_only": True}),
+                "False": ((), {"return_leaf_distances_only": False}), "positional-False": ((False,), {})}[flag]
+    leaves_only = flag in ("default", "True")
+    ok, dists = core.call(ctx, "calc_node_root_distances", tree.calc_node_root_distances, *args, detail=det, **kw)
     if ok:
-        want = sorted(d for n, d, k in ref.root_distances(spec) if not n[3])
-        if len(dists) != len(want) or any(not close(a, b) for a, b in zip(sorted(dists), want)):
-            ctx.violation("calc_node_root_distances|wrong", "leaf distances differ", det)
+        ctx.ev("root-distances-judged")
+        ctx.ev("root-distances-flag:%s" % ("leaves" if leaves_only else "all-nodes"))
+        want = sorted(d for n, d, k in rdl if not n[3] or not leaves_only)
+        if not same_sorted(dists, want, False):
+            ctx.violation("calc_node_root_distances|wrong|%s" % ("leaf-distances" if leaves_only else "all-node-distances"),
+                          "%d distances returned, %d nodes asked for; %s vs %s" % (len(dists), len(want), sorted(dists)[:6], want[:6]), det)
+        for n in pre:
+            v = getattr(lm[id(n)], "root_distance", None)
+            if v is None or not close(v, rd[id(n)]):
+                ctx.violation("calc_node_root_distances|root_distance-attribute-wrong", "%r, distance from root %r" % (v, rd[id(n)]), det)
+                break
+    # module-level routes of the same quantities
+    internal = rng.random() < 0.5
+    wa = sorted(tr[id(n)][0] for n in pre if n[3] or not internal)
+    wd = sorted(rd[id(n)] for n in pre if n[3] or not internal)
+    wia = sorted(tr[id(n)][0] for n in pre if n[3])
+    wid = sorted(rd[id(n)] for n in pre if n[3])
+    for label, fn, a, kw, want in (("treemeasure.node_ages", treemeasure.node_ages, (tree,), {"is_internal_only": internal}, wa),
+                                   ("treemeasure.node_depths", treemeasure.node_depths, (tree,), {"is_internal_only": internal}, wd),
+                                   ("treemeasure.coalescence_ages", treemeasure.coalescence_ages, (tree,), {}, wia),
+                                   ("treemeasure.divergence_times", treemeasure.divergence_times, (tree,), {}, wid)):
+        ok, got = core.call(ctx, label, fn, *a, detail=det, **kw)
+        if ok:
+            ctx.ev("module-route-compared")
+            if not same_sorted(got, want, False):      # the order of the vector is not part of the statement
+                ctx.violation("%s|wrong" % label, "got %s want %s" % (sorted(got)[:8], want[:8]), det)
+    # node-level routes the statement does not name: recorded, not judged
+    probe = rng.sample(pre, min(len(pre), 4))
+    for n in probe:
+        nd = lm[id(n)]
+        try:
+            if not close(nd.distance_from_root(), rd[id(n)]):
+                ctx.note("Node.distance_from_root differs from the distance from the root (not judged)%s" % ("; root edge has a length" if spec[2] else ""))
+            if nd.level() != lvl[id(n)]:
+                ctx.note("Node.level differs from the number of edges to the root (not judged)")
+            if not close(nd.distance_from_tip(), tr[id(n)][1]):
+                ctx.note("Node.distance_from_tip differs from the distance to the tips (not judged)")
+        except core.CaseTimeout:
+            raise
+        except Exception as e:
+            ctx.note("node-level route raised %s (not judged)" % type(e).__name__)
+    try:
+        tree.coalescence_intervals()
+        ctx.note("Tree.coalescence_intervals returned (not judged)")
+    except core.CaseTimeout:
+        raise
+    except Exception as e:
+        ctx.note("Tree.coalescence_intervals raised %s (not judged)" % type(e).__name__)
     # lineages through time (positive lengths by construction)
     depths = sorted(set(rd.values()))
-    qs = list(depths)
+    qs = []
+    if dyadic:
+        qs = list(depths)
     for a, b in zip(depths, depths[1:]):
-        qs.append((a + b) / 2.0)
+        if dyadic or b - a > 1e-6:          # float trees: only query points that are not near any node depth
+            qs.append((a + b) / 2.0)
     qs += [depths[-1] + 1.0, -1.0]
     if len(qs) > 40:
         qs = rng.sample(qs, 40)
     pm = ref.parent_map(spec)
     for d in qs:
-        want = sum(1 for n in ref.preorder(spec) if pm[id(n)] is not None and rd[id(pm[id(n)])] < d <= rd[id(n)])
+        want = U.crossing_edges(spec, rd, pm, d)
         ok, got = core.call(ctx, "num_lineages_at", tree.num_lineages_at, d, detail=det)
-        if not dyadic and any(abs(d - x) < 1e-9 and d != x for x in depths):
-            continue
         if ok:
             ctx.ev("lineages-compared")
             if got != want:
                 ctx.violation("num_lineages_at|count-differs-from-crossing-edges", "at %r: %r lineages, %r edges cross" % (d, got, want), det)
                 break
     # ---- the same tree object after its edge lengths were changed: every answer must describe the tree as it is now
+    # (factors are powers of two: scaling is exact in binary floating point, also on the float workloads)
     factor = rng.choice([2, 0.5, 4])
     core.call(ctx, "scale_edges", tree.scale_edges, factor, detail=det)
     for d in rng.sample(qs, min(len(qs), 8)):
         d2 = d * factor
-        want = sum(1 for n in ref.preorder(spec) if pm[id(n)] is not None and rd[id(pm[id(n)])] * factor < d2 <= rd[id(n)] * factor)
+        want = U.crossing_edges(spec, rd, pm, d2, factor)
         ok, got = core.call(ctx, "num_lineages_at", tree.num_lineages_at, d2, detail=det)
-        if not dyadic:
-            continue
         if ok:
             ctx.ev("lineages-compared")
+            ctx.ev("lineages-after-change-compared")
             if got != want:
                 ctx.violation("num_lineages_at|stale-after-edge-lengths-changed", "after scale_edges(%r), at %r: %r lineages, %r edges cross" % (factor, d2, got, want), det)
                 break
-    if dyadic:
-        ok, res = core.call(ctx, "calc_node_ages", tree.calc_node_ages, detail=det)
-        if ok:
-            ctx.ev("ages-compared")
-            for n in ref.preorder(spec):
-                if lm[id(n)].age != td[id(n)][0] * factor:
-                    ctx.violation("calc_node_ages|stale-after-edge-lengths-changed", "age %r, distance to tips now %r" % (lm[id(n)].age, td[id(n)][0] * factor), det)
-                    break
-        ok, mx = core.call(ctx, "max_distance_from_root", tree.max_distance_from_root, detail=det)
-        if ok and mx != max(rd.values()) * factor:
-            ctx.violation("max_distance_from_root|stale-after-edge-lengths-changed", "%r, now %r" % (mx, max(rd.values()) * factor), det)
+    ok, res = core.call(ctx, "calc_node_ages", tree.calc_node_ages, detail=det)
+    if ok:
+        ctx.ev("ages-compared")
+        ctx.ev("ages-after-change-compared")
+        for n in pre:
+            if not eq(lm[id(n)].age, tr[id(n)][0] * factor):
+                ctx.violation("calc_node_ages|stale-after-edge-lengths-changed", "age %r, distance to tips now %r" % (lm[id(n)].age, tr[id(n)][0] * factor), det)
+                break
+    ok, mx = core.call(ctx, "max_distance_from_root", tree.max_distance_from_root, detail=det)
+    if ok and not eq(mx, max(rd.values()) * factor):
+        ctx.violation("max_distance_from_root|stale-after-edge-lengths-changed", "%r, now %r" % (mx, max(rd.values()) * factor), det)
+    for n in probe:
+        try:
+            if not close(lm[id(n)].distance_from_tip(), tr[id(n)][1] * factor):
+                ctx.note("Node.distance_from_tip stale after the edge lengths changed (not judged)")
+        except core.CaseTimeout:
+            raise
+        except Exception as e:
+            ctx.note("node-level route raised %s (not judged)" % type(e).__name__)
     if len(ref.leaves(spec)) >= 3:
         ctx.nontrivial(("ultra", ref.canon(spec)))
     if case["i"] < 2:
         ctx.sample({"kind": "ultrametric", "tree": ref.to_newick(spec)})
 
 
+# ---- the ultrametricity check: histories on one object ---------------------------------------------------
+AGE_ROUTES = ["calc_node_ages", "calc_node_ages", "calc_node_ages(internal-only)", "node_ages", "node_ages(internal_only)", "internal_node_ages"]
+GAMMA_ROUTES = ["pybus_harvey_gamma", "Tree.pybus_harvey_gamma"]
+
+
+def route_call(tree, route, kw, prec_given):
+    """(callable, returns-internal-only, returns-sorted) of one public route to the node ages; kw = calc_node_ages keywords."""
+    from dendropy.calculate import treemeasure
+    if route == "calc_node_ages":
+        return (lambda: tree.calc_node_ages(**kw)), False, False
+    if route == "calc_node_ages(internal-only)":
+        return (lambda: tree.calc_node_ages(is_return_internal_node_ages_only=True, **kw)), True, False
+    if route == "node_ages":
+        return (lambda: tree.node_ages(**kw)), False, True
+    if route == "node_ages(internal_only)":
+        return (lambda: tree.node_ages(internal_only=True, **kw)), True, True
+    if route == "internal_node_ages":
+        return (lambda: tree.internal_node_ages(**kw)), True, True
+    if route == "pybus_harvey_gamma":
+        if prec_given:
+            return (lambda: treemeasure.pybus_harvey_gamma(tree, prec=kw["ultrametricity_precision"])), None, None
+        return (lambda: treemeasure.pybus_harvey_gamma(tree)), None, None
+    if route == "Tree.pybus_harvey_gamma":
+        if prec_given:
+            return (lambda: tree.pybus_harvey_gamma(kw["ultrametricity_precision"])), None, None
+        return (lambda: tree.pybus_harvey_gamma()), None, None
+    raise core.HarnessBug(route)
+
+
 def run_threshold(ctx, case, rng):
     from dendropy.utility import error
-    spec = gen_tree(ctx, rng, dyadic=True)
-    nodes = [n for n in ref.preorder(spec) if n is not spec]
-    victim = rng.choice(nodes)
-    eps_name, eps = rng.choice([("default", 1e-5), ("1e-2", 1e-2), ("1e-9", 1e-9), ("zero", 0)])
-    side = rng.choice(["below", "above", "exact"])
-    if eps == 0:
-        delta = 0.0 if side != "above" else rng.choice([1e-12, 1e-6, 0.25])
-    else:
-        delta = eps * (1 - 1e-3) if side == "below" else (eps * (1 + 1e-3) if side == "above" else 0.0)
-    sign = rng.choice([1, -1]) if victim[2] > 1e-1 else 1
-    pspec = ref.copy(spec)
-    pv = list(ref.preorder(pspec))[list(ref.preorder(spec)).index(victim)]
-    pv[2] = pv[2] + sign * delta
-    det = {"tree": ref.to_newick(spec), "perturbed_clade": sorted(ref.leaf_taxa(victim)), "delta": sign * delta, "precision": eps_name}
-    kw = {} if eps_name == "default" else {"ultrametricity_precision": eps}
-    tree = fresh(pspec)
-    lm = live_map(tree, pspec)
-    try:
-        tree.calc_node_ages(**kw)
-        outcome = "accepted"
-    except error.UltrametricityError:
-        outcome = "rejected"
-    except core.CaseTimeout:
-        raise
-    except Exception as e:
-        ctx.unexpected("calc_node_ages", e, det)
-        return
-    expect = "rejected" if (delta > eps) else "accepted"
-    # only siblings make a deviation visible: a perturbed only-child cannot be detected and need not be
-    pm = ref.parent_map(spec)
-    ctx.ev("threshold-%s-judged" % ("reject" if expect == "rejected" else "accept"))
-    if outcome != expect:
-        ctx.violation("calc_node_ages|ultrametricity-check|%s-although-deviation-%s-precision|%s" % (
-            outcome, "exceeds" if delta > eps else "within", eps_name),
-            "deviation %r, precision %r: %s" % (delta, eps, outcome), det)
-    elif outcome == "accepted":
-        td = tip_distances(pspec)
-        for n in ref.preorder(pspec):
-            lo, hi = td[id(n)][0], td[id(n)][-1]
-            a = lm[id(n)].age
-            if not (lo - 1e-12 <= a <= hi + 1e-12):
-                ctx.violation("calc_node_ages|age-outside-range-of-tip-distances", "age %r not in [%r, %r]" % (a, lo, hi), det)
-                break
-    # check disabled: never rejects
-    for off in (None, False, -1):
-        t2 = fresh(pspec)
-        ok, _ = core.call(ctx, "calc_node_ages(check-disabled)", t2.calc_node_ages, ultrametricity_precision=off, detail=det)
-    # forcing options on a grossly non-ultrametric version
-    gspec = ref.copy(spec)
-    for n in ref.preorder(gspec):
-        if n is not gspec and rng.random() < 0.4:
-            n[2] = n[2] + rng.randint(1, 8) / 4.0
-    for opt, fn in (("is_force_max_age", max), ("is_force_min_age", min)):
-        t3 = fresh(gspec)
-        lm3 = live_map(t3, gspec)
-        want = forced_ages(gspec, fn)
-        ok, _ = core.call(ctx, "calc_node_ages(%s)" % opt, t3.calc_node_ages, detail=det, **{opt: True})
-        if ok:
+    base = U.gen_tree(ctx.tier, rng, dyadic=True)
+    base = gen.shuffle_children(base, rng)       # a deviating subtree is the first child as often as a later one
+    base, unary = U.maybe_unary(base, rng, 0.1)
+    if unary:
+        ctx.ev("tree-with-unary-node")
+    nl = len(ref.leaves(base))
+    gamma_ok = nl >= 3 and all(len(n[3]) in (0, 2) for n in ref.preorder(base))
+    rooted = pick_rooting(rng)
+    tree = fresh(base, rooted)
+    live = live_nodes(tree, base)
+    base_nodes = list(ref.preorder(base))
+    cur_kind, cur, cur_exact = "none", {}, True
+    eps_name, eps_arg = None, None
+    hist = []
+    nsteps = 4
+    for step in range(nsteps):
+        mode = rng.choice(["check"] * 6 + ["off", "off", "max", "min"])
+        if eps_name is None or rng.random() > 0.45:
+            eps_name, eps_arg = rng.choice(U.EPS_CHOICES)
+        eps = 1e-5 if eps_arg is None else eps_arg
+        if step == 0 or rng.random() > 0.25:
+            kind, deltas, exact = U.draw_state(rng, base, eps)
+        else:
+            kind, deltas, exact = cur_kind, cur, cur_exact         # same lengths as at the previous step, other options
+        for i in set(cur) | set(deltas):
+            live[i].edge.length = base_nodes[i][2] + deltas.get(i, 0)
+        cur_kind, cur, cur_exact = kind, deltas, exact
+        spec = U.apply_state(base, deltas)
+        tr = U.tip_range(spec)
+        lo, hi = tr[id(spec)]
+        spread = hi - lo
+        slack = 0.0 if exact else U.rounding_slack(spec)
+        kw = {}
+        prec_given = eps_arg is not None
+        if mode == "check":
+            if prec_given:
+                kw["ultrametricity_precision"] = eps_arg
+            routes = AGE_ROUTES + (GAMMA_ROUTES if gamma_ok else [])
+            mode_name = eps_name
+            if spread > eps + slack:
+                expect = "rejected"
+            elif spread <= eps - slack:
+                expect = "accepted"
+            else:
+                expect = None
+        else:
+            routes = AGE_ROUTES
+            expect = "accepted"
+            if mode == "off":
+                mode_name, off = rng.choice(U.OFF_CHOICES)
+                kw["ultrametricity_precision"] = off
+                mode_name = "check-disabled-" + mode_name
+            else:
+                kw["is_force_%s_age" % mode] = True
+                mode_name = "is_force_%s_age" % mode
+                if prec_given and rng.random() < 0.5:
+                    kw["ultrametricity_precision"] = eps_arg
+        route = rng.choice(routes)
+        is_gamma = route in GAMMA_ROUTES
+        fn, internal_only, is_sorted = route_call(tree, route, kw, prec_given)
+        rname = route.split("(")[0]
+        objhist = "fresh-object" if step == 0 else "object-queried-before"
+        det = {"ultrametric_tree": ref.to_newick(base), "deviations": dict(("edge %d above (%s)" % (i, ",".join(sorted(ref.leaf_taxa(base_nodes[i])))), d) for i, d in deltas.items()),
+               "tree_now": ref.to_newick(spec), "longest_minus_shortest_root_to_tip_path": spread, "route": route, "options": repr(sorted(kw.items())),
+               "step": step, "earlier_steps": list(hist)}
+        hist.append("%s %s %s" % (route, mode_name, kind))
+        try:
+            res = fn()
+            outcome = "accepted"
+        except error.UltrametricityError:
+            outcome = "rejected"
+        except core.CaseTimeout:
+            raise
+        except Exception as e:
+            ctx.unexpected(rname, e, det)
+            break
+        if expect is None:
+            ctx.note("threshold step not judged: spread within the rounding bound of the precision")
+            continue
+        ctx.ev("threshold-%s-judged" % ("reject" if expect == "rejected" else "accept"))
+        if step:
+            ctx.ev("threshold-reused-object-judged")
+            if expect == "rejected":
+                ctx.ev("threshold-reused-object-reject-judged")
+        if kind == "several-deviations" and mode == "check":
+            ctx.ev("several-deviations-%s-judged" % ("reject" if expect == "rejected" else "accept"))
+        if is_gamma:
+            ctx.ev("gamma-threshold-judged")
+        if mode == "off":
+            ctx.ev("check-disabled-judged")
+            if spread >= 0.25:
+                ctx.ev("check-disabled-on-gross-deviations-judged")
+        if outcome != expect:
+            if mode == "check":
+                clause = ("accepted-although-paths-differ-by-more-than-precision" if expect == "rejected"
+                          else "rejected-although-paths-agree-within-precision")
+                eps_class = "default-precision" if eps_arg is None else ("zero-precision" if eps == 0 else "given-precision")
+                ctx.violation("%s|ultrametricity-check|%s|%s|%s|%s" % (rname, clause, kind, eps_class, objhist),
+                              "longest - shortest root-to-tip path = %r, precision %r: %s" % (spread, eps, outcome), det)
+            else:
+                ctx.violation("%s|rejected-although-%s|%s" % (rname, "check-disabled" if mode == "off" else mode_name, objhist),
+                              "UltrametricityError with %s" % mode_name, det)
+            continue
+        if outcome != "accepted" or is_gamma:
+            continue      # gamma: the ages it leaves on the nodes are a side effect the statement does not describe
+        nodes = list(ref.preorder(spec))
+        if mode in ("max", "min"):
+            want = U.forced_ages(spec, max if mode == "max" else min)
             ctx.ev("forcing-compared")
-            for n in ref.preorder(gspec):
-                if lm3[id(n)].age != want[id(n)]:
-                    ctx.violation("calc_node_ages|%s-age-wrong" % opt, "age %r, %s over children %r" % (lm3[id(n)].age, fn.__name__, want[id(n)]),
-                                  dict(det, forced_tree=ref.to_newick(gspec)))
+            for n, nd in zip(nodes, live):
+                a = nd.age
+                if a is None or abs(a - want[id(n)]) > slack:
+                    ctx.violation("%s|%s-age-wrong" % (rname, mode_name), "age %r, %s over children of (age + length) %r" % (a, mode, want[id(n)]), det)
                     break
-    t4 = fresh(gspec)
-    ok, e = core.call(ctx, "calc_node_ages", t4.calc_node_ages, allowed=(ValueError,), is_force_max_age=True, is_force_min_age=True)
-    if ok:
-        ctx.violation("calc_node_ages|both-forcing-options-accepted", "documented ValueError not raised", det)
-    ctx.nontrivial(("thr", ref.canon(spec), eps_name, side, sorted(ref.leaf_taxa(victim))))
+        else:
+            ctx.ev("accepted-ages-judged")
+            for n, nd in zip(nodes, live):
+                a = nd.age
+                l, h = tr[id(n)]
+                if a is None or not (l - slack <= a <= h + slack):
+                    ctx.violation("%s|age-outside-range-of-tip-distances|%s" % (rname, "no-deviation" if kind == "none" else ("check-disabled" if mode == "off" else "within-precision")),
+                                  "age %r, distances to the descendant tips in [%r, %r]" % (a, l, h), det)
+                    break
+        # the returned collection: the ages of the nodes asked for (all / internal), sorted where documented
+        ctx.ev("returned-ages-judged")
+        wantlist = sorted(nd.age for n, nd in zip(nodes, live) if (n[3] or not internal_only) and nd.age is not None)
+        try:
+            got = list(res)
+        except TypeError:
+            got = None
+        if got is None or sorted(got) != wantlist:
+            ctx.violation("%s|returned-ages-differ-from-node-ages|%s" % (rname, "internal-only" if internal_only else "all-nodes"),
+                          "returned %s, ages on the nodes %s" % (None if got is None else sorted(got)[:8], wantlist[:8]), det)
+        elif is_sorted and got != sorted(got):
+            ctx.violation("%s|returned-ages-not-sorted" % rname, "returned %s" % got[:8], det)
+    if rng.random() < 0.25:
+        ok, e = core.call(ctx, "calc_node_ages", tree.calc_node_ages, allowed=(ValueError,), is_force_max_age=True, is_force_min_age=True)
+        if ok:
+            ctx.violation("calc_node_ages|both-forcing-options-accepted", "documented ValueError not raised", {"tree": ref.to_newick(base)})
+    ctx.nontrivial(("thr", ref.canon(base), tuple(hist)))
     if case["i"] < 2:
-        ctx.sample(dict(det, outcome=outcome))
+        ctx.sample({"kind": "threshold", "ultrametric_tree": ref.to_newick(base), "history": hist})
 
 
+# ---- statistics --------------------------------------------------------------------------------------
 def run_stats(ctx, case, rng):
-    import dendropy
     from dendropy.calculate import treemeasure
     dyadic = rng.random() < 0.6
-    spec = gen_tree(ctx, rng, dyadic)
-    want, binary, nl = stat_oracles(spec)
-    det = {"tree": ref.to_newick(spec)}
+    spec = U.gen_tree(ctx.tier, rng, dyadic, allow_single=True)
+    cls = "ultrametric"
+    if rng.random() < 0.15 and spec[3]:
+        # some lengths missing (Tree.length documents: counted as 0) or zero: the length-free statistics must not notice
+        cls = "missing-or-zero-lengths"
+        nr = [n for n in ref.preorder(spec) if n is not spec]
+        for n in nr:
+            r = rng.random()
+            if r < 0.3:
+                n[2] = None
+            elif r < 0.5:
+                n[2] = 0.0
+        if all(n[2] for n in nr):
+            rng.choice(nr)[2] = None
+        ctx.ev("stats-tree-with-missing-or-zero-lengths")
+    spec, unary = U.maybe_unary(spec, rng)
+    if unary:
+        ctx.ev("tree-with-unary-node")
+    root_len = None
+    if rng.random() < 0.35:
+        root_len = spec[2] = rng.choice([0, 0.75, 2, 1.0, 3.5])
+        ctx.ev("stats-tree-with-root-edge-length")
+    all_lengths = all(n[2] is not None for n in ref.preorder(spec) if n is not spec)
+    want, binary, nl = U.stat_oracles(spec)
+    poly = any(len(n[3]) > 2 for n in ref.preorder(spec))
+    rooted = pick_rooting(rng)
+    det = {"tree": ref.to_newick(spec), "class": cls, "rooted": rooted}
+    rdisc = "|root-edge-has-length" if root_len else ""
     variants = [spec, gen.shuffle_children(spec, rng)]
+    hist_variant = rng.randrange(2)
     for vi, sp in enumerate(variants):
-        tree = fresh(sp)
+        tree = fresh(sp, rooted)
 
         def cmp(name, key, fn, *a, **kw):
+            disc = kw.pop("disc", "")
+            alt = kw.pop("alt", None)
             ok, got = core.call(ctx, name, fn, *a, detail=det, **kw)
             if not ok:
                 return
             ctx.ev("statistic-compared")
-            w = want[key]
-            same = all(close(x, y) for x, y in zip(got, w)) if isinstance(w, tuple) else close(got, w)
-            if not same:
-                ctx.violation("%s|differs-from-definition|%s%s" % (name.split("(")[0], key, "|after-child-reordering" if vi else ""),
-                              "%r, definition gives %r" % (got, w), det)
-        cmp("Tree.length", "length", tree.length)
-        cmp("Tree.max_distance_from_root", "maxdist", tree.max_distance_from_root)
-        cmp("Tree.minmax_leaf_distance_from_root", "minmax", tree.minmax_leaf_distance_from_root)
+            if disc:
+                ctx.ev("statistic-compared%s" % disc)
+            for w in [want[key]] + ([alt] if alt is not None else []):
+                try:
+                    same = all(close(x, y) for x, y in zip(got, w)) and len(got) == len(w) if isinstance(w, tuple) else close(got, w)
+                except TypeError:
+                    same = False
+                if same:
+                    return
+            ctx.violation("%s|differs-from-definition|%s%s%s" % (name.split("(")[0], key, disc, "|after-child-reordering" if vi else ""),
+                          "%r, definition gives %r" % (got, want[key]), det)
+        # Tree.length: 'sum of edge lengths', a missing length counts as 0; whether the root's own edge is a branch is left open
+        cmp("Tree.length", "length", tree.length, alt=(want["length"] + root_len) if root_len else None,
+            disc="|missing-lengths" if not all_lengths else "")
+        if all_lengths:
+            cmp("Tree.max_distance_from_root", "maxdist", tree.max_distance_from_root, disc=rdisc)
+            cmp("Tree.minmax_leaf_distance_from_root", "minmax", tree.minmax_leaf_distance_from_root, disc=rdisc)
+            if "treeness" in want:
+                cmp("treeness", "treeness", treemeasure.treeness, tree, disc=rdisc)
+                cmp("Tree.treeness", "treeness", tree.treeness, disc=rdisc)
         cmp("N_bar", "N_bar", treemeasure.N_bar, tree)
         cmp("Tree.N_bar", "N_bar", tree.N_bar)
         cmp("B1", "B1", treemeasure.B1, tree)
         cmp("Tree.B1", "B1", tree.B1)
-        if "treeness" in want:
-            cmp("treeness", "treeness", treemeasure.treeness, tree)
-            cmp("Tree.treeness", "treeness", tree.treeness)
         for norm in (None, True, "yule", "pda"):
             cmp("sackin_index", "sackin:%s" % norm, treemeasure.sackin_index, tree, normalize=norm)
             cmp("Tree.sackin_index", "sackin:%s" % norm, tree.sackin_index, normalize=norm)
         cmp("sackin_index", "sackin:None", treemeasure.sackin_index, tree, normalize=False)
-        if binary and nl >= 2:
+        cmp("Tree.sackin_index", "sackin:None", tree.sackin_index, normalize=False)
+        # normalisation left to its documented default / passed positionally
+        cmp("sackin_index", "sackin:True", treemeasure.sackin_index, tree, disc="|default-normalisation")
+        cmp("Tree.sackin_index", "sackin:True", tree.sackin_index, disc="|default-normalisation")
+        pn = rng.choice([None, False, True, "yule", "pda"])
+        pk = "sackin:%s" % (None if pn is False else pn)
+        cmp("sackin_index", pk, treemeasure.sackin_index, tree, pn, disc="|positional-normalisation")
+        cmp("Tree.sackin_index", pk, tree.sackin_index, pn, disc="|positional-normalisation")
+        if unary:
+            # Colless' statistic and gamma are defined on binary trees; the library documents an error for polytomies only
+            for label, fn in (("colless_tree_imbalance", lambda: treemeasure.colless_tree_imbalance(tree, None)),
+                              ("pybus_harvey_gamma", lambda: treemeasure.pybus_harvey_gamma(fresh(sp, rooted)))):
+                try:
+                    fn()
+                    ctx.note("%s on a tree with outdegree-one nodes returned a value (not judged)" % label)
+                except core.CaseTimeout:
+                    raise
+                except Exception as e:
+                    ctx.note("%s on a tree with outdegree-one nodes raised %s (not judged)" % (label, type(e).__name__))
+        elif binary and nl >= 2:
             for norm, key in ((None, "None"), (False, "None"), ("max", "max"), (True, "max"), ("yule", "yule"), ("pda", "pda")):
                 if "colless:%s" % key in want:
                     cmp("colless_tree_imbalance", "colless:%s" % key, treemeasure.colless_tree_imbalance, tree, normalize=norm)
                     cmp("Tree.colless_tree_imbalance", "colless:%s" % key, tree.colless_tree_imbalance, normalize=norm)
-        elif not binary:
+            if "colless:max" in want:
+                cmp("colless_tree_imbalance", "colless:max", treemeasure.colless_tree_imbalance, tree, disc="|default-normalisation")
+                cmp("Tree.colless_tree_imbalance", "colless:max", tree.colless_tree_imbalance, disc="|default-normalisation")
+            pn, pk = rng.choice([(None, "None"), (False, "None"), ("yule", "yule"), ("pda", "pda")])
+            cmp("colless_tree_imbalance", "colless:%s" % pk, treemeasure.colless_tree_imbalance, tree, pn, disc="|positional-normalisation")
+            cmp("Tree.colless_tree_imbalance", "colless:%s" % pk, tree.colless_tree_imbalance, pn, disc="|positional-normalisation")
+        elif poly:
             ok, e = core.call(ctx, "colless_tree_imbalance", treemeasure.colless_tree_imbalance, tree, allowed=(TypeError,))
-            if ok and any(len(n[3]) > 2 for n in ref.preorder(sp)):
+            if ok:
                 ctx.violation("colless_tree_imbalance|no-TypeError-on-polytomy", "returned %r on a non-binary tree" % (e,), det)
-        if binary and nl >= 3:
-            td = tip_distances(sp)
-            ages = dict((k, v[0]) for k, v in td.items())
-            g = gamma_oracle(sp, ages)
-            for label, fn in (("pybus_harvey_gamma", lambda t: treemeasure.pybus_harvey_gamma(t)), ("Tree.pybus_harvey_gamma", lambda t: t.pybus_harvey_gamma())):
-                t5 = fresh(sp)
+        if cls == "ultrametric" and binary and nl >= 3 and not unary:
+            g = U.gamma_oracle(sp)
+            routes = (("pybus_harvey_gamma", lambda t: treemeasure.pybus_harvey_gamma(t)), ("Tree.pybus_harvey_gamma", lambda t: t.pybus_harvey_gamma()))
+            for label, fn in routes:
+                t5 = fresh(sp, rooted)
                 ok, got = core.call(ctx, label, fn, t5, detail=det)
                 if ok:
                     ctx.ev("statistic-compared")
                     if not close(got, g, 1e-8):
-                        ctx.violation("%s|differs-from-definition%s" % (label, "|after-child-reordering" if vi else ""), "%r, definition gives %r" % (got, g), det)
+                        ctx.violation("%s|differs-from-definition%s%s" % (label, rdisc, "|after-child-reordering" if vi else ""), "%r, definition gives %r" % (got, g), det)
+            if vi == hist_variant:
+                gamma_history(ctx, rng, sp, rooted, routes, g, det)
     if nl >= 3:
         ctx.nontrivial(("stats", ref.canon(spec)))
     if case["i"] < 2:
         ctx.sample({"kind": "stats", "tree": ref.to_newick(spec), "oracle": dict((k, v) for k, v in want.items() if not isinstance(v, tuple))})
+
+
+def gamma_history(ctx, rng, sp, rooted, routes, g, det0):
+    """gamma on ONE tree object: after an earlier age computation, after node heights were changed (tree still ultrametric),
+    after the tree stopped being ultrametric: every answer must describe the tree as it is at the time of the call."""
+    t = fresh(sp, rooted)
+    live = live_nodes(t, sp)
+    warm = rng.choice(["calc_node_ages", "resolve_node_ages", "is_force_max_age", "node_ages", "gamma"])
+    det = dict(det0, earlier_call=warm)
+    label, fn = rng.choice(routes)
+    if warm == "calc_node_ages":
+        ok, _ = core.call(ctx, "calc_node_ages", t.calc_node_ages, detail=det)
+    elif warm == "resolve_node_ages":
+        ok, _ = core.call(ctx, "resolve_node_ages", t.resolve_node_ages, detail=det)
+    elif warm == "is_force_max_age":
+        ok, _ = core.call(ctx, "calc_node_ages", t.calc_node_ages, is_force_max_age=True, detail=det)
+    elif warm == "node_ages":
+        ok, _ = core.call(ctx, "node_ages", t.node_ages, detail=det)
+    else:
+        ok, _ = core.call(ctx, label, fn, t, detail=det)
+    if not ok:
+        return
+    ok, got = core.call(ctx, label, fn, t, detail=det)
+    if ok:
+        ctx.ev("gamma-reused-object-compared")
+        if not close(got, g, 1e-8):
+            ctx.violation("%s|differs-from-definition|object-queried-before" % label, "%r, definition gives %r" % (got, g), det)
+    cur = ref.copy(sp)
+    change = U.shift_height(cur, rng)
+    if change is not None:
+        nodes = list(ref.preorder(cur))
+        for i, ln in change:
+            nodes[i][2] = ln
+            live[i].edge.length = ln
+        g2 = U.gamma_oracle(cur)
+        det = dict(det, tree_now=ref.to_newick(cur))
+        label, fn = rng.choice(routes)
+        ok, got = core.call(ctx, label, fn, t, detail=det)
+        if ok:
+            ctx.ev("gamma-after-change-compared")
+            if not close(got, g2, 1e-8):
+                ctx.violation("%s|stale-after-node-heights-changed" % label,
+                              "%r, definition gives %r for the tree as it is now (%r before the change)" % (got, g2, g), det)
+    # one tip pushed off by much more than the default precision: documented ValueError, whatever was computed before
+    nodes = list(ref.preorder(cur))
+    tips = [i for i, n in enumerate(nodes) if not n[3]]
+    i = rng.choice(tips)
+    off = rng.choice([0.5, 1.0, 0.125])
+    nodes[i][2] = nodes[i][2] + off
+    live[i].edge.length = nodes[i][2]
+    det = dict(det, tree_now=ref.to_newick(cur))
+    for objhist, tt in (("object-queried-before", t), ("fresh-object", fresh(cur, rooted))):
+        label, fn = rng.choice(routes)
+        ok, got = core.call(ctx, label, fn, tt, allowed=(ValueError,), detail=det)
+        ctx.ev("gamma-non-ultrametric-judged")
+        if ok:
+            ctx.violation("%s|no-error-on-non-ultrametric-tree|%s" % (label, objhist),
+                          "returned %r although one tip is %r further from the root than the others" % (got, off), det)
